@@ -55,6 +55,7 @@ try:
         print(c, 'exit', rc, lines[:3])
 finally:
     sh('git -C /repo checkout -- .')
+    sh('python3 /verif/translate/gen.py')      # Gen/*.lean back to the unchanged tree
     for ev, text in saved.items():
         open(ev, 'w').write(text)
 meta['checks_run_with_patch_applied'] = results
